@@ -750,6 +750,14 @@ func (w *World) mustPassOK(fn *ssa.Function, pred func(string) bool, resultIdx i
 		h := w.newCallee(hc)
 		if w.summary(sumKey{namedOf(h), "ok", what, resultIdx}, func() bool { _, v := w.mustPassOK(h, pred, resultIdx, what); return v == "" }) {
 			viaHelper = append(viaHelper, hc)
+			continue
+		}
+		// a runner handed a literal table of stages: it succeeds only after every stage did
+		for _, g := range w.tableCallsVia(hc) {
+			if _, v := w.mustPassOK(g, pred, resultIdx, what); v == "" {
+				viaHelper = append(viaHelper, hc)
+				break
+			}
 		}
 	}
 	if len(calls)+len(viaHelper) == 0 {
@@ -850,6 +858,13 @@ func (w *World) mustPassCall(fn *ssa.Function, pred func(string) bool, what stri
 		h := w.newCallee(hc)
 		if w.summary(sumKey{namedOf(h), "call", what, 0}, func() bool { _, v := w.mustPassCall(h, pred, what); return v == "" }) {
 			calls = append(calls, hc)
+			continue
+		}
+		for _, g := range w.tableCallsVia(hc) {
+			if _, v := w.mustPassCall(g, pred, what); v == "" {
+				calls = append(calls, hc)
+				break
+			}
 		}
 	}
 	if len(calls) == 0 {
